@@ -155,7 +155,7 @@ type subRootObj struct {
 	pending *hSub // configuration of the next subscriber (set by the driver before each subscribe request)
 	// pendingBy: for a request that opens several streams, the subscriber prepared for each root field (by response key)
 	pendingBy map[string]*hSub
-	created []*hSub
+	created   []*hSub
 }
 
 func (r *subRootObj) Resolve(field *ggql.Field, args map[string]interface{}) (interface{}, error) {
